@@ -1,56 +1,103 @@
 package main
 
-// Extension points of the fsm scenario driver for per-property files:
-//   registerStep("name", f)          a new directed step name (exact match)
-//   registerStepPrefix("pfx", f)     a family of step names "pfx<arg>"
-//   registerFreshStep("name")        the step may run before a swap id exists (it creates the swap)
-//   registerTail("Cxx", f)           runs after every scenario when psh fsm is called with -focus Cxx
-//   registerDirectedFor("Cxx", ds)   directed scenarios that run only with -focus Cxx (after the shared ones)
-import "strings"
+// Extension points of the fsm scenario driver, so that per-property files can add
+// step names, plan overrides, crash points and record filters without editing the
+// shared driver.  All registries are filled at init time; per-scenario state lives
+// in maps keyed by *Scen (scenarios run in parallel).
 
-var extraSteps = map[string]func(sc *Scen){}
-var extraStepPrefixes = map[string]func(sc *Scen, arg string){}
-var freshExtraSteps = map[string]bool{}
-var scenarioTails = map[string]func(sc *Scen){}
-var directedFor = map[string][]directed{}
+import (
+	"os"
+	"strings"
+	"sync"
+)
 
-func registerStep(name string, f func(sc *Scen))                   { extraSteps[name] = f }
-func registerStepPrefix(prefix string, f func(sc *Scen, a string)) { extraStepPrefixes[prefix] = f }
-func registerFreshStep(prefix string)                              { freshExtraSteps[prefix] = true }
-func registerTail(focus string, f func(sc *Scen))                  { scenarioTails[focus] = f }
-func registerDirectedFor(focus string, ds ...directed) {
-	directedFor[focus] = append(directedFor[focus], ds...)
-}
+// ---- step names ----
+// A handler gets the full step name; it returns true when it handled the name.
+type extStepHandler func(sc *Scen, name string) bool
 
-// called once by runFsm: the focus' own directed scenarios follow the shared ones
-func addFocusDirected(focus string) {
-	directedScenarios = append(directedScenarios, directedFor[focus]...)
-}
+var extStepHandlers []extStepHandler
 
-func runExtraStep(sc *Scen, n string) {
-	if f, ok := extraSteps[n]; ok {
-		f(sc)
-		return
-	}
-	for p, f := range extraStepPrefixes {
-		if strings.HasPrefix(n, p) {
-			f(sc, strings.TrimPrefix(n, p))
-			return
-		}
-	}
-}
+func registerStepHandler(h extStepHandler) { extStepHandlers = append(extStepHandlers, h) }
 
-func isFreshExtraStep(n string) bool {
-	for p := range freshExtraSteps {
-		if strings.HasPrefix(n, p) {
+func extStep(sc *Scen, n string) bool {
+	for _, h := range extStepHandlers {
+		if h(sc, n) {
 			return true
 		}
 	}
 	return false
 }
 
-func runScenarioTail(sc *Scen, focus string) {
-	if f, ok := scenarioTails[focus]; ok && sc != nil {
-		f(sc)
+// ---- per-scenario extension state ----
+type extState struct {
+	plan      *Plan // answers plan for the NEXT step only
+	crashAt   int   // >0: the next step dies when its crashAt-th effect is about to happen
+	randCrash bool  // random crash injection enabled for this scenario
+	stash     []interface{}
+}
+
+var (
+	extMu     sync.Mutex
+	extStates = map[*Scen]*extState{}
+)
+
+func ext(sc *Scen) *extState {
+	extMu.Lock()
+	defer extMu.Unlock()
+	s, ok := extStates[sc]
+	if !ok {
+		s = &extState{}
+		extStates[sc] = s
 	}
+	return s
+}
+
+func extPlan(sc *Scen) (Plan, bool) {
+	s := ext(sc)
+	if s.plan == nil {
+		return Plan{}, false
+	}
+	p := *s.plan
+	s.plan = nil
+	return p, true
+}
+
+// ---- hooks around one step ----
+type extBeginHook func(sc *Scen, sp *stepSpec)
+type extRecordHook func(sc *Scen, rec *stepRecord, panicked bool) bool
+
+var (
+	extBeginHooks  []extBeginHook
+	extRecordHooks []extRecordHook
+)
+
+func registerBeginHook(h extBeginHook)   { extBeginHooks = append(extBeginHooks, h) }
+func registerRecordHook(h extRecordHook) { extRecordHooks = append(extRecordHooks, h) }
+
+func extBeginStep(sc *Scen, sp *stepSpec) {
+	for _, h := range extBeginHooks {
+		h(sc, sp)
+	}
+}
+
+func extRecord(sc *Scen, rec *stepRecord, panicked bool) bool {
+	for _, h := range extRecordHooks {
+		if h(sc, rec, panicked) {
+			return true
+		}
+	}
+	return false
+}
+
+// focusIs reports whether this process was started with "-focus <id>" (available at init time).
+func focusIs(id string) bool {
+	for i, a := range os.Args {
+		if (a == "-focus" || a == "--focus") && i+1 < len(os.Args) && os.Args[i+1] == id {
+			return true
+		}
+		if strings.HasPrefix(a, "-focus=") && strings.TrimPrefix(a, "-focus=") == id {
+			return true
+		}
+	}
+	return false
 }
